@@ -4,6 +4,7 @@ import (
 	"bytes"
 	"encoding/binary"
 	"fmt"
+	"os"
 
 	"verif/harness/internal/tla"
 )
@@ -21,6 +22,11 @@ func v1Hello(magic uint32) []byte {
 }
 
 const testNet3Magic = 0x0709110b
+
+// corruptOracle (VERIF_V2_CORRUPT=content|len|status) deliberately falsifies
+// one field read from the specification state; used only to demonstrate that
+// the comparison is not vacuous.
+var corruptOracle = os.Getenv("VERIF_V2_CORRUPT")
 
 func (s *session) step(prev, cur tla.State) error {
 	last := cur["last"]
@@ -106,6 +112,9 @@ func (s *session) compare(cur tla.State, a string, actor int) error {
 		}
 		stx := cur["st"].F(epName(x))
 		ph := stx.F("ph").Str()
+		if corruptOracle == "status" && ph == "err" {
+			ph = "ready"
+		}
 		want := specClass(ph)
 
 		// 1. deliveries to the application
@@ -119,15 +128,23 @@ func (s *session) compare(cur tla.State, a string, actor int) error {
 		var expect [][]byte
 		if actor == x && okind == "app" {
 			c := out.F("content").Seq()
-			expect = append(expect, contentBytes(s.ctx.Seed, s.id, c[0].Str(), c[1].Int(), out.F("size").Int()))
+			n := c[1].Int()
+			if corruptOracle == "content" {
+				n++ // vacuity self-test: a wrong expected value must be rejected
+			}
+			expect = append(expect, contentBytes(s.ctx.Seed, s.id, c[0].Str(), n, out.F("size").Int()))
 		}
 		if len(newDeliv) != len(expect) || (len(expect) == 1 && !bytes.Equal(newDeliv[0], expect[0])) {
-			if len(newDeliv) == 0 {
+			if st := s.ev[x].status(); len(newDeliv) == 0 && st == "err" && want != "err" {
+				// reported below as an error on an untampered stream
+			} else if len(newDeliv) == 0 {
 				s.violation("deliver:missing", fmt.Sprintf("endpoint %s did not deliver the packet the peer sent (action %s)", epName(x), a))
 			} else {
 				s.violation("deliver:altered-plaintext", fmt.Sprintf("endpoint %s handed %d packet(s) to the application that differ from what the specification allows after %s (spec out=%s)", epName(x), len(newDeliv), a, out))
 			}
-			return s.refGuard()
+			if s.diverged {
+				return s.refGuard()
+			}
 		}
 		// 2. ignore flag (observable on the reference endpoint only)
 		if actor == x && okind == "ignored" {
@@ -220,7 +237,7 @@ func (s *session) compare(cur tla.State, a string, actor int) error {
 					return fmt.Errorf("reference endpoint %s epoch %d vs specification %d", epName(x), (sP-1)/bipRekeyInterval, want)
 				}
 			}
-			if (a == "RRecvKey" || a == "IRecvKey") && actor == x && !r.r.EllswiftOK {
+			if (a == "RRecvKey" || a == "IRecvKey") && actor == x && r.r.KeyMade && !r.r.EllswiftOK {
 				s.violation("ellswift:encode-decode", "XSwiftEC(XSwiftECInv(u, x)) differs from x for a freshly created key")
 				return s.refGuard()
 			}
@@ -233,7 +250,11 @@ func (s *session) compare(cur tla.State, a string, actor int) error {
 		s.evals++
 		bad := len(w) != len(lens)
 		for i := 0; !bad && i < len(w); i++ {
-			if !cut[i] && w[i].F("len").Int() != lens[i] {
+			wl := w[i].F("len").Int()
+			if corruptOracle == "len" && w[i].F("k").Str() == "term" {
+				wl++
+			}
+			if !cut[i] && wl != lens[i] {
 				bad = true
 			}
 		}
